@@ -709,7 +709,7 @@ func c10Scenarios(prop string, thorough bool) []c10Scenario {
 	s4 := cat(s2, "black:P8", "commit")
 	// S5: authorizers on a consensus node that is voted OUT of consensus while part of their stake is
 	// un-authorized and still frozen (the split after a demotion divides by a snapshot that excludes it)
-	s5 := cat(s1, "max:P7:100000", "auth:A1:P7:1000", "auth:A2:P7:500", "commit", "income:1000000007", "unauth:A1:P7:500", "addinit:P8:5000", "commit", "income:1000000007")
+	s5 := cat(s1, "addinit:P8:5000", "commit", "auth:O2:P8:40000", "auth:A2:P8:500", "commit", "income:1000000007", "unauth:O2:P8:39500", "redinit:P8:5000", "commit", "income:1000000007")
 	out := []c10Scenario{{"F/S0", "F", nil}, {"F/S1", "F", s1}, {"F/S2", "F", s2}, {"F/S5", "F", s5}}
 	if prop == "C11" {
 		out = append(out, c10Scenario{"F/S3", "F", s3}, c10Scenario{"F/S4", "F", s4})
